@@ -26,7 +26,7 @@ ASSUMPTIONS = ['with a ticking monotonic() the strict error is required only if 
                'than `factor` past the due instant, and forbidden only if the first clock value read inside step() is within '
                '`factor`; in between either behaviour is accepted', 'early sleeps still make progress (a sleep never returns '
                'without advancing the clock)']
-PROBES = ['big_int_clock', 'until_in_idle_stretch', 'driven_by_run_until', 'burn_between_calls', 'burn', 'sleep_early', 'sleep_late', 'tick', 'sync', 'strict_error_expected', 'lag_exactly_factor', 'pre_burn',
+PROBES = ['stepped_again_after_too_slow', 'big_int_clock', 'until_in_idle_stretch', 'driven_by_run_until', 'burn_between_calls', 'burn', 'sleep_early', 'sleep_late', 'tick', 'sync', 'strict_error_expected', 'lag_exactly_factor', 'pre_burn',
           'nonstrict_late', 'initial_time_nonzero']
 
 
@@ -200,7 +200,13 @@ class Observer:
             else:
                 self.stats['strict_error_expected'] = 1
             self.too_slow = True
-            self.stop = True
+            # the occurrence was not processed: the caller may catch the error and step again, and as long as the wall
+            # clock is still too far ahead every further step must raise again (observed up to three times)
+            self.raises = getattr(self, 'raises', 0) + 1
+            if self.raises >= 2:
+                self.stats['stepped_again_after_too_slow'] = 1
+            if self.raises >= 3 or self.viol:
+                self.stop = True
             return
         if strict and lag_entry > factor:
             self.viol.append(('C20.3', 'strict step did not raise although the wall clock at step entry (%r) was already %r '
@@ -289,9 +295,6 @@ def run(case):
                         break
                     if env.peek() > it[1]:
                         stats['until_in_idle_stretch'] = 1
-                except RuntimeError as e:
-                    if 'too slow' in str(e).lower():
-                        break
                 except (Exception, HarnessAbort):
                     pass
                 while not done and not obs.stop and obs.steps < 4000:
